@@ -257,9 +257,13 @@ def main():
             c = run_learner(which, kw, X)
         except Exception as ex:
             # the only raise the model predicts: n_cand_cuts == 1 at a node with >= 2 variables
-            ans = drv.ask(dict(base, op='cnetlearn', script=[]))
+            ans = drv.ask(dict(base, op='cnetlearn', script=[]), raw=True)
             cnt['python-raises:' + type(ex).__name__] += 1
-            if not ans.startswith('raises:'):
+            if ans.startswith('bad-op script exhausted'):
+                # the learner machine wants to go on (it asks for the first decision): on this data set learning does not raise
+                bad('raise', f'the learner raised {type(ex).__name__}: {ex} on a data set on which the learner machine proceeds to a decision '
+                             f'(no network is learned at all)', rep)
+            elif not ans.startswith('raises:'):
                 bad('raise', f'python raised {type(ex).__name__}: {ex} but the model answers {ans[:120]}', rep)
             elif not (isinstance(ex, TypeError) and kw.get('n_cand_cuts') == 1):
                 bad('raise', f'python raised {type(ex).__name__}: {ex}, not the predicted TypeError', rep)
